@@ -1,6 +1,9 @@
 pub mod e1_checks;
 pub mod e2_checks;
 pub mod c04;
+pub mod simtest;
+pub mod c09;
+pub mod c07;
 
 use crate::report::Tier;
 
@@ -12,6 +15,8 @@ pub fn run(id: &str, tier: &Tier) -> Result<i32, String> {
         "C06" => e1_checks::c06(tier),
         "C03" => e2_checks::c03(tier),
         "C04" => c04::c04(tier),
+        "C09" => c09::c09(tier),
+        "C07" => c07::c07(tier),
         "C05" => e2_checks::c05(tier),
         _ => Err(format!("no check registered for {}", id)),
     }
